@@ -126,8 +126,10 @@ def _finish(ch, goal, timeout, what, extra_charts=()):
     cons = list(ch.base) + list(ch.defs) + _cube_constraint(ch)
     for c in extra_charts:
         cons += list(c.base) + list(c.defs)
+    # vacuity twin: the constraints WITHOUT the negated property must be satisfiable (some string exists in the bounded space)
+    rt, _, tsecs, _ = _solve(cons, min(timeout, 120))
     r, m, secs, _ = _solve(cons + [goal], timeout)
-    out = {"what": what, "L": ch.L, "alphabet": len(ch.alphabet), "cube": CUBE, "definitions": len(cons), "secs": round(secs, 2),
+    out = {"twin": rt, "twin_secs": round(tsecs, 2), "what": what, "L": ch.L, "alphabet": len(ch.alphabet), "cube": CUBE, "definitions": len(cons), "secs": round(secs, 2),
            "build_secs": None, "state": r}
     if r == 'unsat':
         out["verdict"] = "PROVED"
